@@ -1821,3 +1821,246 @@ Proof.
   - change (s' :: rest) with ([s'] ++ rest). rewrite exec_block_app, Hp2. exact Hrr.
   - intros y Hy. apply A2. unfold SD. rewrite Hy. reflexivity.
 Qed.
+
+(* =========================================================================================== *)
+(* Part 6: the expression rules *)
+
+(* ---- remove_redundant_comprehensions ---- *)
+
+Lemma identity_clause : forall w k x dv, k <> CDict -> forall xs ec tr acc,
+  exists ec', iter_items (clause_body (eval w) [] (leaf_of (eval w) k (XName x) dv))
+                (TName x) xs ec tr acc = Some (ec', acc ++ xs, tr).
+Proof.
+  intros w k x dv Hk. induction xs as [|v xs IH]; intros ec tr acc; cbn [iter_items].
+  - exists ec. rewrite app_nil_r. reflexivity.
+  - cbn [bind]. unfold clause_body at 1. cbn [ev_conds]. unfold leaf_of at 1. cbn [eval]. rewrite upd_same.
+    destruct (IH (upd ec x v) tr (acc ++ [v])) as [ec' H1]. exists ec'.
+    destruct k; try contradiction; rewrite H1, <- app_assoc; reflexivity.
+Qed.
+
+Lemma run_gens_nil : forall ev leaf, run_gens ev leaf [] = leaf.
+Proof. reflexivity. Qed.
+
+Theorem redundant_seq_sound : forall w e e' en tr,
+  rw_redundant e = Some e' -> (match e with XComp CDict _ _ _ => false | _ => true end) = true ->
+  eval w e' en tr = eval w e en tr.
+Proof.
+  intros w e e' en tr H Hk. unfold rw_redundant in H.
+  destruct e; try discriminate. destruct k; try discriminate; destruct e1; try discriminate;
+    destruct gens as [|g [|? ?]]; try discriminate; destruct g; try discriminate; destruct t; try discriminate;
+    destruct ifs; try discriminate;
+    destruct (Nat.eqb x x0) eqn:E; try discriminate; apply Nat.eqb_eq in E; subst x0; inversion H; subst e';
+    cbn [eval ev_list]; destruct (eval w g en tr) as [[v tr1]|]; try reflexivity;
+    cbn [capply bapply]; destruct (items_of v) as [xs|]; try reflexivity; cbn [gens_targets tnames app];
+    rewrite run_gens_nil.
+  - destruct (identity_clause w CList x e2 ltac:(discriminate) xs (mask [x] en) tr1 []) as [ec' ->]. reflexivity.
+  - destruct (identity_clause w CSet x e2 ltac:(discriminate) xs (mask [x] en) tr1 []) as [ec' ->].
+    cbn [finish app option_map]. destruct (mkset xs); reflexivity.
+  - destruct (identity_clause w CGen x e2 ltac:(discriminate) xs (mask [x] en) tr1 []) as [ec' ->]. reflexivity.
+Qed.
+
+(* ---- replace_map_lambda_with_comp / replace_filter_lambda_with_comp ---- *)
+
+(* a one-clause generator over the parameter of the lambda does what the calls of the lambda do *)
+Lemma lambda_clause : forall a en (f : val -> trace -> option (list val * trace)) (body : env -> trace -> list val -> res),
+  (forall ec x tr acc, (forall y, y <> a -> ec y = en y) ->
+     match f x tr, body (upd ec a x) tr acc with
+     | Some (ys, t1), Some (ec', acc', t2) => acc' = acc ++ ys /\ t1 = t2 /\ (forall y, y <> a -> ec' y = en y)
+     | None, None => True
+     | _, _ => False
+     end) ->
+  forall xs ec tr acc, (forall y, y <> a -> ec y = en y) ->
+  match lam_items f xs tr acc, iter_items body (TName a) xs ec tr acc with
+  | Some (l, t1), Some (_, l', t2) => l = l' /\ t1 = t2
+  | None, None => True
+  | _, _ => False
+  end.
+Proof.
+  intros a en f body H. induction xs as [|x xs IH]; intros ec tr acc Hec; cbn [lam_items iter_items bind].
+  - auto.
+  - specialize (H ec x tr acc Hec).
+    destruct (f x tr) as [[ys t1]|], (body (upd ec a x) tr acc) as [[[ec' acc'] t2]|]; try contradiction; [|exact I].
+    destruct H as [-> [-> Hec']]. apply IH, Hec'.
+Qed.
+
+Theorem map_sound : forall w e e' en tr, rw_map e = Some e' -> eval w e' en tr = eval w e en tr.
+Proof.
+  intros w e e' en tr H. destruct e; try discriminate. inversion H; subst e'. clear H. cbn [eval].
+  destruct (eval w e2 en tr) as [[v tr1]|]; [|reflexivity]. destruct (items_of v) as [xs|]; [|reflexivity].
+  cbn [gens_targets tnames app]. rewrite run_gens_nil.
+  pose proof (lambda_clause a en
+    (fun x tr' => match eval w e1 (upd en a x) tr' with Some (r, tr2) => Some ([r], tr2) | None => None end)
+    (clause_body (eval w) [] (leaf_of (eval w) CGen e1 dummy))) as L.
+  match type of L with ?A -> _ => assert (HA0 : A) end.
+  { intros ec x tr0 acc Hec. cbn beta. unfold clause_body. cbn [ev_conds]. unfold leaf_of.
+    assert (Hf : eval w e1 (upd ec a x) tr0 = eval w e1 (upd en a x) tr0).
+    { apply eval_frame. intros y _. unfold upd. destruct (Nat.eqb y a) eqn:E; [reflexivity|]. apply Hec. apply Nat.eqb_neq. exact E. }
+    rewrite Hf. destruct (eval w e1 (upd en a x) tr0) as [[r tr2]|]; [|exact I].
+    repeat split. intros y Hy. rewrite upd_other by exact Hy. apply Hec, Hy. }
+  specialize (L HA0 xs (mask [a] en) tr1 []).
+  match type of L with ?A -> _ => assert (HA : A) end.
+  { intros y Hy. unfold mask. cbn [memn existsb]. apply Nat.eqb_neq in Hy. rewrite Hy. reflexivity. }
+  specialize (L HA).
+  destruct (lam_items _ xs tr1 []) as [[l t1]|], (iter_items _ (TName a) xs (mask [a] en) tr1 []) as [[[ec' l'] t2]|];
+    try contradiction; [|reflexivity].
+  destruct L as [-> ->]. reflexivity.
+Qed.
+
+Theorem filter_sound : forall w e e' en tr, rw_filter e = Some e' -> eval w e' en tr = eval w e en tr.
+Proof.
+  intros w e e' en tr H. destruct e; try discriminate. inversion H; subst e'. clear H. cbn [eval].
+  destruct (eval w e2 en tr) as [[v tr1]|]; [|reflexivity]. destruct (items_of v) as [xs|]; [|reflexivity].
+  cbn [gens_targets tnames app]. rewrite run_gens_nil.
+  pose proof (lambda_clause a en
+    (fun x tr' => match eval w e1 (upd en a x) tr' with
+                  | Some (r, tr2) => Some (if Bool.eqb (truthy r) (negb neg) then [x] else [], tr2)
+                  | None => None end)
+    (clause_body (eval w) [if neg then XNot e1 else e1] (leaf_of (eval w) CGen (XName a) dummy))) as L.
+  match type of L with ?A -> _ => assert (HA0 : A) end.
+  { intros ec x tr0 acc Hec. cbn beta. unfold clause_body. cbn [ev_conds]. unfold leaf_of.
+    assert (Hf : eval w e1 (upd ec a x) tr0 = eval w e1 (upd en a x) tr0).
+    { apply eval_frame. intros y _. unfold upd. destruct (Nat.eqb y a) eqn:E; [reflexivity|]. apply Hec. apply Nat.eqb_neq. exact E. }
+    assert (Hkeep : forall y, y <> a -> upd ec a x y = en y) by (intros y Hy; rewrite upd_other by exact Hy; apply Hec, Hy).
+    destruct neg; cbn [eval negb]; rewrite Hf; destruct (eval w e1 (upd en a x) tr0) as [[r tr2]|]; try exact I;
+      cbn [truthy]; destruct (truthy r); cbn [negb Bool.eqb eval]; rewrite ?upd_same;
+      repeat split; try assumption; try (rewrite app_nil_r; reflexivity). }
+  specialize (L HA0 xs (mask [a] en) tr1 []).
+  match type of L with ?A -> _ => assert (HA : A) end.
+  { intros y Hy. unfold mask. cbn [memn existsb]. apply Nat.eqb_neq in Hy. rewrite Hy. reflexivity. }
+  specialize (L HA).
+  destruct (lam_items _ xs tr1 []) as [[l t1]|], (iter_items _ (TName a) xs (mask [a] en) tr1 []) as [[[ec' l'] t2]|];
+    try contradiction; [|reflexivity].
+  destruct L as [-> ->]. reflexivity.
+Qed.
+
+(* the rule as it was: `not` bound to the first operand of an `or` *)
+Theorem filter_old_refuted :
+  exists w e e' en tr, rw_filter_old e = Some e' /\ eval w e' en tr <> eval w e en tr.
+Proof.
+  exists test_world,
+    (XFilter true 1%nat (XBool false [XName 1%nat; XConst (ABool true)]) (XSeq KList [XConst (AInt 0)])).
+  eexists. exists (fun _ => None), []. split; [reflexivity|]. vm_compute. discriminate.
+Qed.
+
+(* =========================================================================================== *)
+(* Refutations (what the faithful models still get wrong: the known findings) and examples of inputs that
+   meet the guards of the theorems *)
+
+Definition nn (n : nat) : nat := n.
+Definition no_after : nat -> bool := fun _ => false.
+
+(* F02comp-6: the inner iterable reads a variable that the inner for binds: local and unbound in a comprehension *)
+Definition scope_prog : st * st :=
+  (SAssign 1 (XSeq KList []),
+   SFor (TName 2) (XName 8) [SFor (TName 4) (XName 4) [SMeth (RName 1) MAppend (XName 4)] []] []).
+Definition scope_env : env := mkenv [(8%nat, VList [VList [VInt 1]]); (4%nat, VList [VInt 5; VInt 6])].
+
+Theorem setlist_scope_refuted :
+  exists w s' en tr r, site_setlist no_after (fst scope_prog) (snd scope_prog) = Some s'
+    /\ exec_block w [fst scope_prog; snd scope_prog] en tr = Some r /\ exec_block w [s'] en tr = None.
+Proof.
+  exists test_world. eexists. exists scope_env, []. eexists. split; [reflexivity|]. split; vm_compute; reflexivity.
+Qed.
+
+Example setlist_scope_guard_catches_it : site_scoped (fst scope_prog) (snd scope_prog) = false.
+Proof. reflexivity. Qed.
+
+(* an input that meets the guards: x = []; for a in v8: if f4(a): for b in f5(a): if b: x.append(f0(a, b)) *)
+Definition good_prog : st * st :=
+  (SAssign 1 (XSeq KList []),
+   SFor (TName 2) (XName 8)
+     [SIf (XCall 4 [XName 2])
+        [SFor (TName 4) (XCall 5 [XName 2]) [SIf (XName 4) [SMeth (RName 1) MAppend (XCall 0 [XName 2; XName 4])] []] []]
+        []] []).
+
+Example setlist_guard_example :
+  site_scoped (fst good_prog) (snd good_prog) = true
+  /\ site_setlist no_after (fst good_prog) (snd good_prog)
+     = Some (SAssign 1 (XComp CList (XCall 0 [XName 2; XName 4]) dummy
+                          [XGen (TName 2) (XName 8) [XCall 4 [XName 2]];
+                           XGen (TName 4) (XCall 5 [XName 2]) [XName 4]])).
+Proof. split; reflexivity. Qed.
+
+(* the loop variable is gone after the rewrite: the two final environments differ on it (hence "outside the
+   targets" in the theorems, and the guard dead_after in the rule) *)
+Theorem setlist_leak_refuted :
+  exists w s1 s2 s' en tr en1 en2 tr1 tr2, site_setlist no_after s1 s2 = Some s'
+    /\ exec_block w [s1; s2] en tr = Some (en1, tr1) /\ exec_block w [s'] en tr = Some (en2, tr2)
+    /\ en1 2%nat <> en2 2%nat.
+Proof.
+  exists test_world, (SAssign 1 (XSeq KList [])),
+    (SFor (TName 2) (XSeq KList [XConst (AInt 7)]) [SMeth (RName 1) MAppend (XName 2)] []).
+  eexists. exists (fun _ => None), []. do 4 eexists. split; [reflexivity|].
+  split; [vm_compute; reflexivity|]. split; [vm_compute; reflexivity|]. vm_compute. discriminate.
+Qed.
+
+(* F02comp-3: x.extend(generator) looks x up although the loop does not run *)
+Theorem nested_loops_refuted :
+  exists w s s' en tr r, site_nested 1000 no_after s = Some s'
+    /\ exec_block w [s] en tr = Some r /\ exec_block w [s'] en tr = None.
+Proof.
+  exists test_world, (SFor (TName 2) (XSeq KList []) [SMeth (RName 1) MExtend (XName 2)] []).
+  eexists. exists (fun _ => None), []. eexists. split; [reflexivity|]. split; vm_compute; reflexivity.
+Qed.
+
+Example nested_guard_example :
+  let s := SFor (TName 2) (XName 8) [SIf (XCall 4 [XName 2]) [SMeth (RName 1) MExtend (XCall 5 [XName 2])] []] [] in
+  nested_guard 1000 s = true /\ nested_receiver s = Some 1%nat
+  /\ site_nested 1000 no_after s
+     = Some (SMeth (RName 1) MExtend
+               (XComp CGen (XName 1000) dummy
+                  [XGen (TName 2) (XName 8) [XCall 4 [XName 2]]; XGen (TName 1000) (XCall 5 [XName 2]) []])).
+Proof. repeat split; reflexivity. Qed.
+
+(* F02comp-4: v = 1 + 2; for i in []: v.append(i) *)
+Theorem plus_refuted :
+  exists w s1 s2 s' en tr r, site_fold false no_after s1 s2 = Some s'
+    /\ exec_block w [s1; s2] en tr = Some r /\ exec_block w [s'] en tr = None.
+Proof.
+  exists test_world, (SAssign 1 (XBin OAdd (XConst (AInt 1)) (XConst (AInt 2)))),
+    (SFor (TName 2) (XSeq KList []) [SMeth (RName 1) MAppend (XName 2)] []).
+  eexists. exists (fun _ => None), []. eexists. split; [reflexivity|]. split; vm_compute; reflexivity.
+Qed.
+
+Example fold_guard_example :
+  let s1 := SAssign 1 (XBin OAdd (XName 7) (XSeq KList [XConst (AInt 1)])) in
+  let s2 := SFor (TTup [2%nat; 4%nat]) (XName 8) [SMeth (RName 1) MAppend (XCall 0 [XName 2])] [] in
+  fold_typed false s2 (XBin OAdd (XName 7) (XSeq KList [XConst (AInt 1)])) = true
+  /\ site_fold false no_after s1 s2
+     = Some (SAssign 1 (XBin OAdd (XBin OAdd (XName 7) (XSeq KList [XConst (AInt 1)]))
+                          (XComp CList (XCall 0 [XName 2]) dummy [XGen (TTup [2%nat; 4%nat]) (XName 8) []]))).
+Proof. split; reflexivity. Qed.
+
+(* F02comp-1 / F02comp-2: the calls of the inner conditions and of the outer element are interleaved *)
+Definition chained_witness : cx :=
+  XComp CList (XCall 0 [XName 2]) dummy
+    [XGen (TName 2) (XComp CList (XName 2) dummy
+                       [XGen (TName 2) (XSeq KList [XConst (AInt 1); XConst (AInt 3)]) [XCall 4 [XName 2]]]) []].
+
+Theorem chained_refuted :
+  exists w e e' en tr r r', rw_chained e = Some e' /\ eval w e en tr = Some r /\ eval w e' en tr = Some r' /\ r <> r'.
+Proof.
+  exists test_world, chained_witness. eexists. exists (fun _ => None), []. do 2 eexists.
+  split; [reflexivity|]. split; [vm_compute; reflexivity|]. split; [vm_compute; reflexivity|]. discriminate.
+Qed.
+
+Definition nested_witness : cx :=
+  XComp CList (XCall 0 [XName 2]) dummy
+    [XGen (TName 2) (XComp CList (XName 4) dummy
+                       [XGen (TName 4) (XSeq KList [XConst (AInt 1); XConst (AInt 3)]) [XCall 4 [XName 4]]]) []].
+
+Theorem nested_refuted :
+  exists w e e' en tr r r', rw_nested e = Some e' /\ eval w e en tr = Some r /\ eval w e' en tr = Some r' /\ r <> r'.
+Proof.
+  exists test_world, nested_witness. eexists. exists (fun _ => None), []. do 2 eexists.
+  split; [reflexivity|]. split; [vm_compute; reflexivity|]. split; [vm_compute; reflexivity|]. discriminate.
+Qed.
+
+(* F02-49: {k: v for k, v in d} iterates the KEYS of a mapping, dict(d) copies it *)
+Theorem redundant_dict_refuted :
+  exists w e e' en tr r r', rw_redundant e = Some e' /\ eval w e en tr = Some r /\ eval w e' en tr = Some r' /\ r <> r'.
+Proof.
+  exists test_world, (XComp CDict (XName 2) (XName 4) [XGen (TTup [2%nat; 4%nat]) (XName 8) []]). eexists.
+  exists (mkenv [(8%nat, VDict [(VTuple [VInt 1; VInt 2], VInt 3)])]), []. do 2 eexists.
+  split; [reflexivity|]. split; [vm_compute; reflexivity|]. split; [vm_compute; reflexivity|]. discriminate.
+Qed.
